@@ -10,6 +10,7 @@ require (
 	github.com/go-faster/yaml v0.4.6
 	github.com/google/uuid v1.6.0
 	github.com/ogen-go/ogen v0.0.0
+	gopkg.in/yaml.v3 v3.0.1
 )
 
 require (
